@@ -37,6 +37,39 @@ def num_join(a, b):
     return ea, eb, IntS
 
 
+class VGen(Value):
+    """generator expression over a symbolic collection (not yet consumed)"""
+    def __init__(self, node, seq, ex):
+        self.shape = None
+        self.node, self.seq, self.ex = node, seq, ex
+
+    def element(self, ex, index_or_key):
+        """(value bound to the target, z3 filter condition, elt value) for one
+        element of the underlying collection, evaluated without forking"""
+        g = self.node.generators[0]
+        seq = self.seq
+        P = ex.path
+        if type(seq).__name__ == 'VEnumerate':
+            lst = seq.inner
+            items = P.read_field(lst, 'items')
+            item = STup([SV(IntS, index_or_key), items.shape.select(items, SV(IntS, index_or_key))])
+        elif isinstance(seq, SRef) and seq.shape.cls in CONTAINERS and CONTAINERS[seq.shape.cls][0] == 'list':
+            items = P.read_field(seq, 'items')
+            item = items.shape.select(items, SV(IntS, index_or_key))
+        else:
+            item = index_or_key      # set / dict: the key itself
+        ex.push_scope()
+        try:
+            ex.assign_target(g.target, item)
+            env = dict(ex.scopes[-1])
+        finally:
+            ex.pop_scope()
+        cond = z3.BoolVal(True)
+        for c in g.ifs:
+            cond = z3.And(cond, ex.spec_bool(c, env))
+        return item, cond, (lambda: ex.spec_eval(self.node.elt, env))
+
+
 class EvalMixin:
     # ------------------------------------------------------------ raising
     def raise_(self, cls, *args, **attrs):
@@ -65,7 +98,15 @@ class EvalMixin:
             if cls in CONTAINERS:
                 kind = CONTAINERS[cls][0]
                 f = 'len' if kind == 'list' else 'size'
-                return self.path.read_field(v, f).e > 0
+                ln = self.path.read_field(v, f).e
+                if kind == 'list' and not self.spec:
+                    # an empty list contains nothing (link len <-> multiset view);
+                    # a true fact about every list, stated where emptiness is tested
+                    cnt = self.path.read_field(v, 'cnt')
+                    key = cnt.shape.key.fresh('q')
+                    qs = cnt.shape.key.unpack(key)
+                    self.path.assume(z3.Implies(ln <= 0, z3.ForAll(qs, cnt.shape.select(cnt, key).e == 0)))
+                return ln > 0
             return z3.BoolVal(True)
         if isinstance(v, STup):
             return z3.BoolVal(len(v.items) > 0)
@@ -429,11 +470,9 @@ class EvalMixin:
                 key = coerce(self.path, self.force_key(x, info[1]), info[1])
                 return has.shape.select(has, key).e
             if info[0] == 'list':
-                ln = self.path.read_field(coll, 'len').e
-                items = self.path.read_field(coll, 'items')
-                k = z3.Int(fresh_name('k'))
-                elem = items.shape.select(items, SV(IntS, k))
-                return z3.Exists([k], z3.And(k >= 0, k < ln, self.eq(elem, x)))
+                # membership through the ghost multiset view (quantifier free)
+                cnt = self.path.read_field(coll, 'cnt')
+                return cnt.shape.select(cnt, coerce(self.path, self.force_key(x, info[1]), info[1])).e >= 1
         if isinstance(coll, SMap):
             key = coerce(self.path, x, coll.shape.key)
             r = coll.shape.select(coll, key)
@@ -474,6 +513,10 @@ class EvalMixin:
             if self.spec:
                 raise ContractError('spec reads undeclared attribute %s.%s' % (obj.shape.cls, name))
             self.raise_('AttributeError', '%s object has no attribute %r' % (obj.shape.cls, name))
+        if type(obj).__name__ == 'VNamespace':
+            if name not in obj.d:
+                raise ContractError('final.%s: no such local at exit' % name)
+            return obj.d[name]
         if isinstance(obj, VModule):
             return self.module_attr(obj, name)
         if isinstance(obj, VExc):
@@ -555,6 +598,10 @@ class EvalMixin:
                 items = self.path.read_field(obj, 'items')
                 v = items.shape.select(items, SV(IntS, i))
                 self.path._assume_wf(v)
+                if not self.spec:
+                    # an element of the list occurs in it (link items <-> multiset view)
+                    cnt = self.path.read_field(obj, 'cnt')
+                    self.path.assume(cnt.shape.select(cnt, v).e >= 1)
                 return v
             if info[0] == 'dict':
                 key = coerce(self.path, self.force_key(idx, info[1]), info[1])
@@ -640,6 +687,10 @@ class EvalMixin:
         if isinstance(seq, VIter):
             seq = PyList(seq.items[seq.pos:])
         if not isinstance(seq, (STup, PyList)):
+            if isinstance(node, ast.GeneratorExp):
+                # lazily consumed generator over a symbolic collection: the
+                # consumers next(gen, default) / set(gen) know what to do
+                return VGen(node, seq, self)
             raise Unsupported('comprehension over symbolic collection')
         out = []
         self.push_scope()
